@@ -238,6 +238,35 @@ func coseMutations() []coseMut {
 		csetP(b, "a.tag", cTag(37, cBstr(make([]byte, 16))))
 		caddCrit(b, cTstr("a.bstr"), cTstr("a.null"), cTstr("a.map"))
 	})
+	// text labels that spell an integer label (and the other way round): a label is its CBOR type and value
+	for _, d := range []string{"1", "2", "3", "4", "33", "-1", "01", "+1", "1.0", "0x1"} {
+		d := d
+		add("ext:text-label-spelling-int-"+d, func(b *coseBuild, c *coseCtx) { csetP(b, d, cTstr("text-"+d)) })
+		add("ext:text-label-spelling-int-"+d+"-crit", func(b *coseBuild, c *coseCtx) { csetP(b, d, cTstr("text-"+d)); caddCrit(b, cTstr(d)) })
+	}
+	add("ext:int-and-text-same-digits-int-crit", func(b *coseBuild, c *coseCtx) {
+		csetP(b, int64(100), cInt(5))
+		csetP(b, "100", cTstr("text"))
+		caddCrit(b, cInt(100))
+	})
+	add("ext:int-and-text-same-digits-text-crit", func(b *coseBuild, c *coseCtx) {
+		csetP(b, int64(100), cInt(5))
+		csetP(b, "100", cTstr("text"))
+		caddCrit(b, cTstr("100"))
+	})
+	add("ext:neg-int-and-text-same-digits", func(b *coseBuild, c *coseCtx) {
+		csetP(b, "-100", cTstr("text"))
+		csetP(b, int64(-100), cInt(5))
+		caddCrit(b, cTstr("-100"))
+	})
+	add("crit:text-spelling-of-scheme-int-absent", func(b *coseBuild, c *coseCtx) {
+		// crit names text "3" while only the integer label 3 (content type) is there
+		caddCrit(b, cTstr("3"))
+	})
+	add("crit:int-where-only-text-present", func(b *coseBuild, c *coseCtx) {
+		csetP(b, "100", cTstr("text"))
+		caddCrit(b, cInt(100))
+	})
 	add("ext:registered-kid", func(b *coseBuild, c *coseCtx) { csetP(b, int64(4), cBstr([]byte("kid-1"))); caddCrit(b, cInt(4)) })
 	add("ext:registered-kid-wrongtype", func(b *coseBuild, c *coseCtx) { csetP(b, int64(4), cTstr("kid")) })
 	add("ext:registered-iv", func(b *coseBuild, c *coseCtx) { csetP(b, int64(5), cBstr([]byte{1, 2, 3})) })
